@@ -19,7 +19,7 @@ FAMILIES = ("hop", "hdr", "hdrl", "path", "redir", "direct", "tmo", "pfc")
 ACT_DEFECTS = ("RewriteSkippedWhenMarked", "RewriteSkippedWhenMarked_hop", "AppendDefaultLeaks", "UnknownVarIsVariable", "MissingVarDash", "PercentTrimmed", "PfcRouteFallsBackToVhost", "RewriteCaseSensitive", "VhostBeforeRoute", "RouterBeforeVhost", "AppendNoSeparator", "RemoveBeforeAdd", "RegexOverPrefix",
                "PrefixRewriteKeepsPrefix", "AutoHostOverHostRewrite", "AutoHostBeforeMutation", "RedirectKeepsPort",
                "RedirectDropsQuery", "RedirectDefault302", "HeaderOverProtocol", "TryNotDisabled")
-RETRY_DEFECTS = ("FinalizeOnRetry", "RetryOnOverflow", "RetryOnIgnored", "StatusListIgnored", "BudgetOffByOne", "BudgetIsNumRetries",
+RETRY_DEFECTS = ("GlobalTimerRestartsOnRetry", "FinalizeOnRetry", "RetryOnOverflow", "RetryOnIgnored", "StatusListIgnored", "BudgetOffByOne", "BudgetIsNumRetries",
                  "SameHostRetry", "RetryAfterResponse")
 
 
@@ -92,6 +92,8 @@ def retry_signature(runev, kind, rt=None):
     cls = "retry_on=%s:codes=%s" % (str(pol.get("on")).lower(), "listed" if pol.get("codes") else "none")
     if kind.startswith("attempts-exceed-budget"):
         cls = "num_retries=%s" % pol.get("n")
+    elif kind in ("attempt-started-after-global-timeout", "reply-later-than-global-timeout"):
+        cls = "per-try=%s" % ("yes" if (runev or {}).get("t") else "no")
     elif kind.startswith("retry-on-same-host") or kind.startswith("attempt-after-reply"):
         cls = "cluster=%s" % ("request-round-robin" if str((runev or {}).get("cluster", "")).startswith(("p", "q")) else "round-robin")
     return "C17:retry:%s:%s" % (kind, cls)
